@@ -30,7 +30,7 @@ TRUSTED = [
     "the model (their text or exception kind is tabulated from the real run); that each generated definition describes "
     "the interface of its source object is checked by this oracle only (parameter names vs inspect.signature), not proved",
     "ast.parse / ast.unparse are represented by the hypotheses C19Spec.python_like (P_empty, P_concat, P_blank, P_trail, "
-    "P_canon, P_all, P_glue); each is tested on the texts of every oracle run, none is proved about CPython",
+    "P_canon, P_all); each is tested on the texts of every oracle run, none is proved about CPython",
     "argparse is modelled at the level of which options are present (required options, choices of --type, a ValueError "
     "from the --prepend converter is a usage error); the argv syntax itself is not modelled",
     "the file system is modelled as: the output file exists or not, its content; open(..., 'a') appends",
@@ -78,6 +78,7 @@ def feats_of(case):
         out.append([isf,
                     (f["doc_style"] != "none") if isf else bool(f["class_doc"]),
                     len(f["params"]),
+                    len(f["params"]) - int(f.get("ndef", 0)),
                     f["doc_style"] in ("untyped", "typed") and bool(f["params"]),
                     bool(f["annotated"]) and (bool(f["params"]) or bool(f["ret"])),
                     bool(f["ret"])])
@@ -129,6 +130,9 @@ def _param_names(obj):
 
 
 def _def_params(node, type_):
+    if type_ == "function":
+        a = node.args
+        return [x.arg for x in list(getattr(a, "posonlyargs", [])) + a.args + a.kwonlyargs]
     if type_ == "class":
         return [s.target.id for s in node.body if isinstance(s, ast.AnnAssign) and isinstance(s.target, ast.Name)
                 and s.target.id != "return_type"]
@@ -288,14 +292,6 @@ def python_facts(o, hist, failures, case_brief):
         at = "__all__ = [" + ", ".join("'%s'" % n for n in o["all_names"]) + "]"
         if T(at) != [[Sym("all"), o["all_names"], at]]:
             bad("P_all", at)
-    imps = [t for src in srcs for t in (T(src) or []) if t[0] == "import"]
-    for a in imps[:3]:
-        for b in imps[:3]:
-            for pre in ("", "X = 1\n", '"""d"""\n'):
-                for rest in ("", "\nclass C:\n    pass\n", " as q", ", z", "\n"):
-                    hist["pyfact:P_glue"] += 1
-                    if T(pre + a[2] + b[2] + rest) is not None:
-                        bad("P_glue", pre + a[2] + b[2] + rest)
 
 
 # ------------------------------------------------------------------ fixed witnesses of the finding classes
@@ -305,7 +301,7 @@ def _mod(src, entries):
 
 _CLS = ("class A(object):\n    \"\"\"\n    The A class.\n    \"\"\"\n\n    def __init__(self, x=5):\n        \"\"\"\n"
         "        Do the A thing.\n\n        :param x: the x\n        :type x: ```int```\n        \"\"\"\n        self.x = x\n")
-_FEAT_A = dict(kind="class", obj="A", doc_style="typed", annotated=False, params=["x"], ret=False, class_doc=True)
+_FEAT_A = dict(kind="class", obj="A", doc_style="typed", annotated=False, params=["x"], ret=False, class_doc=True, ndef=1)
 
 
 def _w(uid, src, entries, **kw):
@@ -317,11 +313,13 @@ def _w(uid, src, entries, **kw):
 
 
 def witnesses():
+    """(expected class, case); expected class None = the case must HOLD (regression checks of repaired defects)"""
     ea = [{"key": "A", "feat": _FEAT_A}]
     base = _CLS + "\nM = {'A': A}\n"
 
     def fn(src, **f):
-        feat = dict(kind="function", obj="f", doc_style="typed", annotated=False, params=["a"], ret=False, class_doc=True)
+        feat = dict(kind="function", obj="f", doc_style="typed", annotated=False, params=["a"], ret=False, class_doc=True,
+                    ndef=0)
         feat.update(f)
         return src + "\nM = {'f': f}\n", [{"key": "f", "feat": feat}]
     s_undoc, e_undoc = fn("def f(a):\n    pass\n", doc_style="none")
@@ -330,17 +328,22 @@ def witnesses():
                       '    :returns: the result\n    :rtype: ```int```\n    """\n    return 1\n', ret=True)
     s_ann, e_ann = fn('def f(a: int):\n    """\n    Do the f thing.\n\n    :param a: the a\n    :type a: ```int```\n    """\n'
                       '    pass\n', annotated=True)
+    s_unt, e_unt = fn('def f(a):\n    """\n    Do the f thing.\n    """\n    pass\n', doc_style="summary")
     return [
         ("api-appends-to-existing-output", _w("1", base, ea, existing="OLD = 1\n")),
-        ("type-function-missing-function_type", _w("2", base, ea, type_="function")),
-        ("imports-glued", _w("3", "import os\nimport sys\n\n" + base, ea, imports={"how": "module"})),
-        ("prepend-glued-to-import", _w("4", "import os\n\n" + base, ea, imports={"how": "module"}, prepend="PI = 3")),
         ("entry-undocumented-callable", _w("5", s_undoc, e_undoc)),
         ("entry-function-without-parameters", _w("6", s_nop, e_nop)),
         ("entry-function-returns-argparse", _w("7", s_ret, e_ret, type_="argparse")),
+        ("entry-function-returns-function", _w("11", s_ret, e_ret, type_="function")),
         ("entry-annotated-callable", _w("8", s_ann, e_ann)),
-        ("type-function-missing-function_type", _w("9", base, ea, type_="function", route="cli")),
-        ("imports-glued", _w("10", "import os\nimport sys\n\n" + base, ea, imports={"how": "module"}, route="cli")),
+        ("entry-untyped-parameter-function", _w("12", s_unt, e_unt, type_="function")),
+        ("entry-undocumented-callable", _w("13", s_undoc, e_undoc, route="cli")),
+        # repaired: formerly type-function-missing-function_type, imports-glued, prepend-glued-to-import
+        (None, _w("2", base, ea, type_="function")),
+        (None, _w("3", "import os\nimport sys\n\n" + base, ea, imports={"how": "module"})),
+        (None, _w("4", "import os\n\n" + base, ea, imports={"how": "module"}, prepend="PI = 3")),
+        (None, _w("9", base, ea, type_="function", route="cli")),
+        (None, _w("10", "import os\nimport sys\n\n" + base, ea, imports={"how": "module"}, route="cli")),
     ]
 
 
@@ -406,10 +409,16 @@ def oracle(rng, tier):
             seen.add(key)
         if is_w:
             expected = wit[i - len(pts)][0]
-            hist["witness:" + expected + (":reproduced" if (not ok and cls == expected) else ":NOT-REPRODUCED")] += 1
-            if ok or cls != expected:
-                failures.append({"case": brief, "what": "witness of %s no longer fails that way (holds=%s, class=%s)" % (
-                    expected, ok, cls), "class": None})
+            if expected is None:
+                hist["regression:repaired-case:" + ("holds" if ok and guard else "FAILS")] += 1
+                if not (ok and guard):
+                    failures.append({"case": brief, "what": "repaired case fails again or left the guard: " + what,
+                                     "class": None})
+            else:
+                hist["witness:" + expected + (":reproduced" if (not ok and cls == expected) else ":NOT-REPRODUCED")] += 1
+                if ok or cls != expected:
+                    failures.append({"case": brief, "what": "witness of %s no longer fails that way (holds=%s, class=%s)" % (
+                        expected, ok, cls), "class": None})
         if not is_w and p["existing"] is None:
             python_facts(fam_gen.observe(_api_twin(p)), hist, failures, {"uid": p["uid"]})
     return {
